@@ -122,8 +122,10 @@ def decode_gcs(key, gcs):
 class CompactFilter:
     def __init__(self, key, hashes):
         self.key = key
-        self.hashes = set(hashes)
-        self.f = len(self.hashes) * GOLOMB_M
+        # two elements may map to the same value: N counts both (BIP158)
+        self.sorted_hashes = sorted(hashes)
+        self.hashes = set(self.sorted_hashes)
+        self.f = len(self.sorted_hashes) * GOLOMB_M
 
     def __repr__(self):
         result = f"{self.key.hex()}:\n\n"
@@ -138,13 +140,13 @@ class CompactFilter:
 
     @classmethod
     def parse(cls, key, filter_bytes):
-        return cls(key, set(decode_gcs(key, filter_bytes)))
+        return cls(key, decode_gcs(key, filter_bytes))
 
     def hash(self):
         return hash256(self.serialize())
 
     def serialize(self):
-        return serialize_gcs(sorted(list(self.hashes)))
+        return serialize_gcs(self.sorted_hashes)
 
     def compute_hash(self, raw_script_pubkey):
         return hash_to_range(self.key, raw_script_pubkey, self.f)
